@@ -16,6 +16,7 @@ import (
 // mode 0 (60 %): no refused starts, no crash points — judged by the spec without any recorded deviation
 // mode 1 (20 %): refused starts
 // mode 2 (20 %): crash points (and a few refused starts)
+// mode 3 (10 %): storage faults (fault=k: the k-th Update transaction of the request fails), never on template updates
 
 type shadow struct {
 	task map[string]*shTask
@@ -34,9 +35,11 @@ var tmplScripts = []string{"t0", "t1", "td", "s0", "sd"}
 func genCase(r *kit.Rand, idx int, tier string) []string {
 	mode := 0
 	switch m := idx % 10; {
-	case m >= 8:
+	case m == 9:
+		mode = 3
+	case m >= 7:
 		mode = 2
-	case m >= 6:
+	case m >= 5:
 		mode = 1
 	}
 	size := r.Range(6, 18)
@@ -47,7 +50,7 @@ func genCase(r *kit.Rand, idx int, tier string) []string {
 	var ops []string
 	add := func(op string) {
 		// oracle decorations
-		if mode >= 1 && r.Chance(1, 4) && !strings.HasPrefix(op, "tdelete") && !strings.HasPrefix(op, "tcreate") && !strings.HasPrefix(op, "delete") {
+		if (mode == 1 || mode == 2) && r.Chance(1, 4) && !strings.HasPrefix(op, "tdelete") && !strings.HasPrefix(op, "tcreate") && !strings.HasPrefix(op, "delete") {
 			n := r.Range(1, 2)
 			var f []string
 			for i := 0; i < n; i++ {
@@ -60,6 +63,9 @@ func genCase(r *kit.Rand, idx int, tier string) []string {
 		}
 		if mode == 2 && r.Chance(1, 3) && !strings.HasPrefix(op, "restart") {
 			op += fmt.Sprintf(" crash=%d", r.Intn(6))
+		}
+		if mode == 3 && r.Chance(1, 2) && !strings.HasPrefix(op, "restart") && !strings.HasPrefix(op, "tupdate") {
+			op += fmt.Sprintf(" fault=%d", r.Range(1, 4))
 		}
 		ops = append(ops, op, "list")
 	}
